@@ -14,7 +14,8 @@
    Python twin of the walker on every written file, and proved for the codec in C04/C05), and the
    plane count of the merged image produced by PSDImage.save() (C17). *)
 From PsdV Require Import Base.Prelude Psd.Codec Psd.Model Psd.Proofs Psd.Walk Psd.Layout Psd.WalkProofs
-  Psd.Leaf Psd.LeafProofs Psd.Descriptor Psd.DescriptorProofs Psd.Effects Psd.EffectsProofs.
+  Psd.Leaf Psd.LeafProofs Psd.Descriptor Psd.DescriptorProofs Psd.Effects Psd.EffectsProofs
+  Psd.Patterns Psd.PatternsProofs.
 From Coq Require Import ZArith List Bool Lia.
 Import ListNotations.
 Open Scope Z_scope.
@@ -101,10 +102,11 @@ Print Assumptions written_truthful_elements.
 Theorem written_truthful_payloads :
   (forall pad l, wtruth (write_leaf pad l)) /\
   (forall t d, wtruth (write_dval t d)) /\ (forall t pad b, wtruth (write_dblock t pad b)) /\
-  (forall e, wtruth (write_effect e)) /\ (forall l, wtruth (write_effects l)).
+  (forall e, wtruth (write_effect e)) /\ (forall l, wtruth (write_effects l)) /\
+  (forall enc_s p, wtruth (write_pattern enc_s p)) /\ (forall enc_s l, wtruth (write_patterns enc_s l)).
 Proof.
   split; [exact wtruth_leaf|]. split; [exact wtruth_dval|]. split; [exact wtruth_dblock|].
-  split; [exact wtruth_effect|exact wtruth_effects].
+  split; [exact wtruth_effect|]. split; [exact wtruth_effects|]. split; [exact wtruth_pattern|exact wtruth_patterns].
 Qed.
 Print Assumptions written_truthful_payloads.
 
